@@ -399,12 +399,14 @@ Proof.
   assert (Hrow_le : forall x, In x row -> x <= mx).
   { intros x Hx. apply Hflat. unfold flat. apply in_concat. exists row. split; assumption. }
   destruct (argmax_spec row mx Hrowmx Hrow_le) as [Hcol Hcolmx].
-  rewrite (sc_row_len k acc sc former [] Hok Hfr') in Hcol.
+  assert (Hrowlen : length row = 4%nat) by (apply (sc_row_len k acc sc former [] Hok Hfr')).
+  rewrite Hrowlen in Hcol.
   set (col := argmaxZ row) in *.
   destruct (latter_map_content k acc HL) as [_ Hlook]. rewrite Hlook in H.
   replace (0 <=? former) with true in H by lia. replace (former <? pow4 k) with true in H by lia.
   rewrite Hlisted in H. cbn [andb] in H.
   destruct (memZ ((former * 4 + col) mod pow4 k) (live_entries (get_row acc former))) eqn:EM; [|discriminate].
+  destruct (filter (fun x => 0 <? x) flat) as [|p0 ps] eqn:EP; [discriminate|].
   inversion H; subst acc' m' u v scs. clear H.
   destruct (live_at_col k acc former col Hk HL Hfr' ltac:(lia) EM) as [Hent Hlat].
   set (latter := (former * 4 + col) mod pow4 k) in *.
@@ -438,29 +440,30 @@ Proof.
     + intros u' j' Hu' Hj' Hne. rewrite Hentry by assumption.
       destruct ((u' =? former) && (j' =? col)) eqn:Eb; [|reflexivity].
       exfalso. apply Hne. f_equal; lia.
-    + reflexivity.
+    + symmetry. exact EP.
     + unfold set_entry. rewrite arc_count_set by lia. fold (get_row acc former). lia.
 Qed.
 
-(* TARGET STATEMENTS (to be proved, do not change the statements):
-
-(* one call *)
-Theorem remove_step : forall k acc ins del acc' m' u v scs, (1 <= k)%nat -> legal k acc ->
-  remove_nasty_arc acc (accessor_to_latter_map acc) ins del = Ok (acc', m', (u, v), scs) ->
-  legal k acc' /\ m' = accessor_to_latter_map acc'
-  /\ exists j sc, 0 <= j < 4 /\ 0 <= u < pow4 k /\ entry acc u j = v /\ 0 <= v
-       /\ calculate_intersection_score (accessor_to_latter_map acc) k ins del = Ok sc
-       /\ (forall u' j', 0 <= u' < pow4 k -> 0 <= j' < 4 -> score_at sc u' j' <= score_at sc u j)
-       /\ entry acc' u j = -1
-       /\ (forall u' j', 0 <= u' < pow4 k -> 0 <= j' < 4 -> (u', j') <> (u, j) -> entry acc' u' j' = entry acc u' j')
-       /\ scs = filter (fun x => 0 <? x) (concat sc)
-       /\ arc_count acc' = arc_count acc - 1.
+(* TARGET STATEMENTS: score_spec, remove_step, remove_history -- all proved in this file exactly as stated. *)
 
 (* any sequence of calls: every state reached by returning calls is a consistent pair of views of a legal graph, and
    the i-th returning call has removed exactly i + 1 arcs in total *)
 Theorem remove_history : forall flags k acc, (1 <= k)%nat -> legal k acc ->
   forall i acc' m' arc, nth_error (run_removals flags acc (accessor_to_latter_map acc)) i = Some (acc', m', arc) ->
   legal k acc' /\ m' = accessor_to_latter_map acc' /\ arc_count acc' = arc_count acc - Z.of_nat (S i).
-*)
+Proof.
+  induction flags as [|[ins del] rest IH]; intros k acc Hk HL i acc' m' arc H; cbn [run_removals] in H.
+  - destruct i; discriminate.
+  - destruct (remove_nasty_arc acc (accessor_to_latter_map acc) ins del) as [[[[acc1 m1] [u v]] scs]| |] eqn:ER;
+      [|destruct i; discriminate..].
+    destruct (remove_step k acc ins del acc1 m1 u v scs Hk HL ER) as [HL1 [Em1 [j [sc Hrest]]]].
+    assert (Hcount : arc_count acc1 = arc_count acc - 1) by (decompose [and] Hrest; assumption).
+    destruct i as [|i]; cbn [nth_error] in H.
+    + inversion H; subst. split; [exact HL1|]. split; [reflexivity|]. lia.
+    + rewrite Em1 in H. destruct (IH k acc1 Hk HL1 i acc' m' arc H) as [H1 [H2 H3]].
+      split; [exact H1|]. split; [exact H2|]. lia.
+Qed.
 
 Print Assumptions score_spec.
+Print Assumptions remove_step.
+Print Assumptions remove_history.
